@@ -46,6 +46,7 @@ type c03Job struct {
 	Var  string     `json:"var"`  // same | removed | added | moved
 	Post int        `json:"post"` // blocks appended after the last reorg
 	Sec  *c03Second `json:"sec,omitempty"`
+	Deep bool       `json:"deep,omitempty"` // explore with two deviations (thorough tier, selected jobs)
 }
 
 type c03Case struct {
@@ -751,7 +752,7 @@ func c03RowSymptom(rows []simpg.Row, p *c03Prep, d *world.Decl, got, want []stri
 func c03Bounds(thorough bool, j c03Job) explore.Bounds {
 	var b explore.Bounds
 	b[0], b[vrt.KPreempt] = 1, 1
-	if thorough {
+	if j.Deep {
 		b[0], b[vrt.KPreempt] = 2, 2
 	}
 	if j.Conc > 1 && j.B0 == 1 {
